@@ -197,6 +197,8 @@ const (
 	dmgSeqMissing // MsgSeqNum field absent and a wrong checksum byte (a missing MsgSeqNum alone leaves the message parsable)
 	dmgSeqAlpha   // MsgSeqNum value non-numeric (message re-framed correctly)
 	dmgNumField   // a numeric body field's value made non-numeric (re-framed correctly)
+	dmgNumEmpty   // a numeric body field present with an empty value (re-framed correctly)
+	dmgSeqEmpty   // MsgSeqNum present with an empty value (re-framed correctly)
 	nDamage
 )
 
@@ -252,10 +254,10 @@ func applyDamage(b []byte, kind int, numTag string) []byte {
 		zz.Assume(x <= '9')
 		zz.Assume(x != d[i-1])
 		d[i-1] = x
-	case dmgSeqMissing, dmgSeqAlpha, dmgNumField:
+	case dmgSeqMissing, dmgSeqAlpha, dmgNumField, dmgNumEmpty, dmgSeqEmpty:
 		var mid []byte
 		target := "34"
-		if kind == dmgNumField {
+		if kind == dmgNumField || kind == dmgNumEmpty {
 			target = numTag
 		}
 		for _, t := range tokens(middle(b)) {
@@ -265,6 +267,10 @@ func applyDamage(b []byte, kind int, numTag string) []byte {
 				}
 				mid = append(mid, t.tag...)
 				mid = append(mid, '=')
+				if kind == dmgNumEmpty || kind == dmgSeqEmpty {
+					mid = append(mid, 1)
+					continue
+				}
 				x := zz.Byte()
 				zz.Assume(zz.Or(x < '0', x > '9'))
 				zz.Assume(x != 1)
